@@ -35,13 +35,14 @@ def check(ctx):
     for _ in range(n):
         vs = gen.random_vars(rng, rng.randrange(1, 13))
         cases.append((vs, gen.compile_layout(vs, rng, dispatcher=rng.choice(["selector", "chain"]))))
-    if ctx.replay_in:
+    stage = vlib.stage_replay(ctx)
+    if ctx.replay_in and not stage:
         r = json.load(open(ctx.replay_in))["replay"]
         cases = [(None, bytes.fromhex(r["code"]))]
         gterms = [r["ground_truth"]]
     else:
         gterms = ["[%s]" % ";".join(gen.gvar_term(v) for v in vs) for vs, _ in cases]
-    if hb:
+    if hb and not stage:
         out = L.analyze(ctx, hb, [c for _, c in cases])
         terms = [L.hexify("mk_c04case %s (%s)" % (g, l)) for g, l in zip(gterms, out)]
         bad = vlib.run_cases(ctx, "idioms", L.HEADER, terms, per_shard=max(1, len(terms) // 32 + 1), fn="check_c04")
@@ -57,5 +58,9 @@ def check(ctx):
                              "variables_by_kind": dict(kinds),
                              "variables_total": sum(kinds.values()),
                              "max_mapping_depth": max([len(v.keys) for vs, _ in cases if vs for v in vs] + [0])})
+    import p_passes_slots
+    p_passes_slots.suite(ctx, translate=False, codes={12, 13, 14}, cov_key="lifting_passes_slots", only=r"^(lift_|recognise_|table_bijective|small_slot|proxy_claims|dyn_array_hash|da_lift_fuel|default_pipeline_shape|mapping_offset_truncates)")
+    import p_passes_packing
+    p_passes_packing.suite(ctx, translate=False, codes={15}, cov_key="lifting_passes_packing", only=r"^(get_region_(spec|sound|none|contiguous|cleared)|which_power|address_mask|subword_mask_lift|lift_packed)")
     return vlib.finish(ctx, rule="random ground-truth layouts compiled to bytecode; every case is non-trivial (>= 1 variable); distinct = "
                        "distinct bytecodes", samples=gterms[:3])
